@@ -155,12 +155,16 @@ def apply_semantic(spec, kind, g):
             cells[i][j][0] = -mag * g.uniform(0.1, 2.0)
             return f'tp{tp + 1} asm {a} {c}[{i}][{j}] negative'
         how = rng.choice(g, ['drop_item', 'gap', 'short_core', 'long_core',
-                             'extra_item'])
+                             'extra_item', 'nan', 'inf'])
         typ = [x for x in spec['types'] if x['name'] ==
                spec['positions'][int(a) - 1]['type']][0]
         if how in ('drop_item', 'extra_item') and typ.get('lowfi'):
             return None     # item counts are free for low-fidelity types
-        if how == 'drop_item':
+        if how in ('nan', 'inf'):
+            # a number that is not a number / not finite
+            cells[i][j][int(g.integers(0, len(cells[i][j])))] = \
+                float('nan') if how == 'nan' else float('inf')
+        elif how == 'drop_item':
             if len(cells[i]) < 2:
                 return None
             del cells[i][j]
